@@ -1,11 +1,289 @@
-//! Sanitizer legs (thorough tier): Miri and ThreadSanitizer drivers under /verif/sanitize.
+//! Sanitizer legs (thorough tier): the small driver crate /verif/sanitize (depends on grex only) is
+//! run under Miri (UB, leaks, data races with many schedule seeds) and ThreadSanitizer; its results
+//! are additionally compared with the native in-process results.
+use crate::cfg::*;
 use crate::e2e::Ctx;
+use crate::gen::{self, Rng};
+use crate::report::*;
 use serde_json::{json, Value};
+use std::process::{Command, Stdio};
+use std::time::{Duration, Instant};
 
-pub fn miri_leg(_ctx: &Ctx, _which: &str) -> Value {
-    json!({"miri_leg": "not built yet"})
+const DRIVER_DIR: &str = "/verif/sanitize";
+
+fn hex(s: &str) -> String {
+    s.bytes().map(|b| format!("{b:02x}")).collect()
 }
 
-pub fn c10_legs(_ctx: &Ctx) -> Value {
-    json!({"tsan_leg": "not built yet", "miri_leg": "not built yet"})
+fn unhex(s: &str) -> Option<String> {
+    if s.len() % 2 != 0 {
+        return None;
+    }
+    let b: Option<Vec<u8>> = (0..s.len() / 2).map(|i| u8::from_str_radix(&s[2 * i..2 * i + 2], 16).ok()).collect();
+    String::from_utf8(b?).ok()
+}
+
+fn write_cases(path: &str, cases: &[(Vec<String>, Settings)]) {
+    let mut s = String::new();
+    for (tcs, st) in cases {
+        s.push_str(&format!("{}\t{}\t{}\t{}\n", st.flags, st.min_rep, st.min_len, tcs.iter().map(|t| hex(t)).collect::<Vec<_>>().join(",")));
+    }
+    std::fs::write(path, s).expect("write cases");
+}
+
+fn cargo(target: &str, rustflags: &str, miriflags: &str) -> Command {
+    let mut c = Command::new("cargo");
+    c.current_dir(DRIVER_DIR)
+        .env("CARGO_NET_OFFLINE", "true")
+        .env("RUSTFLAGS", rustflags)
+        .env("MIRIFLAGS", miriflags)
+        .env("CARGO_TARGET_DIR", format!("/verif/.build/{target}"))
+        .stdout(Stdio::piped())
+        .stderr(Stdio::piped());
+    c
+}
+
+struct Finished {
+    code: Option<i32>,
+    stdout: String,
+    stderr: String,
+    timed_out: bool,
+}
+
+fn wait(mut child: std::process::Child, limit: Duration) -> Finished {
+    use std::io::Read;
+    let start = Instant::now();
+    // drain pipes on threads so that a chatty child cannot block
+    let mut so = child.stdout.take();
+    let mut se = child.stderr.take();
+    let t1 = std::thread::spawn(move || {
+        let mut s = String::new();
+        if let Some(o) = so.as_mut() {
+            let _ = o.read_to_string(&mut s);
+        }
+        s
+    });
+    let t2 = std::thread::spawn(move || {
+        let mut s = String::new();
+        if let Some(o) = se.as_mut() {
+            let _ = o.read_to_string(&mut s);
+        }
+        s
+    });
+    let mut timed_out = false;
+    let code = loop {
+        match child.try_wait() {
+            Ok(Some(s)) => break s.code(),
+            Ok(None) => {
+                if start.elapsed() > limit {
+                    let _ = child.kill();
+                    let _ = child.wait();
+                    timed_out = true;
+                    break None;
+                }
+                std::thread::sleep(Duration::from_millis(100));
+            }
+            Err(_) => break None,
+        }
+    };
+    Finished { code, stdout: t1.join().unwrap_or_default(), stderr: t2.join().unwrap_or_default(), timed_out }
+}
+
+/// Compares `idx<TAB>hex(result)` lines with the native results; returns number compared.
+fn compare_with_native(st: &mut Stats, leg: &str, stdout: &str, cases: &[(Vec<String>, Settings)]) -> usize {
+    let mut n = 0;
+    for line in stdout.lines() {
+        if line.starts_with("MISMATCH") {
+            st.violation(&format!("{leg}_threads_disagree"), line.chars().take(300).collect(), json!({"what": leg, "line": line}));
+            continue;
+        }
+        let mut it = line.split('\t');
+        let (Some(i), Some(h)) = (it.next().and_then(|x| x.parse::<usize>().ok()), it.next()) else { continue };
+        let (Some(got), Some((tcs, s))) = (unhex(h), cases.get(i)) else { continue };
+        n += 1;
+        st.evaluations += 1;
+        st.decided += 1;
+        st.count(&format!("{leg}_builds_compared_with_native"));
+        st.distinct.insert(gen::hash_case(tcs, *s) ^ 0x5a5a);
+        match build(tcs, *s) {
+            Ok(native) if native == got => {}
+            other => {
+                let mut case = case_json(tcs, *s);
+                case["what"] = json!(leg);
+                case["sanitizer_result"] = json!(got);
+                case["native_result"] = json!(format!("{other:?}"));
+                st.violation(&format!("{leg}_differs_from_native"), format!("under {leg} build() returns {got:?}, natively {other:?}"), case);
+            }
+        }
+    }
+    n
+}
+
+fn small_cases(seed: u64, n: usize, stream: u64, heavy_every: usize) -> Vec<(Vec<String>, Settings)> {
+    let alphabets: Vec<Vec<String>> = ["ab", "abc", "mixed", "graph", "meta", "astral"].iter().map(|a| gen::alphabet(a)).collect();
+    (0..n)
+        .map(|i| {
+            let mut rng = Rng::new(seed, stream + i as u64);
+            let al = &alphabets[i % alphabets.len()];
+            let tcs = if rng.chance(1, 2) { gen::repeat_family(&mut rng, al) } else { gen::family(&mut rng, al) };
+            let tcs: Vec<String> = tcs.into_iter().map(|t| t.chars().take(6).collect::<String>()).take(3).collect();
+            // builds that reach Regex::new (case-insensitive folding check, self-check without end
+            // anchor) or the Unicode class tables are very slow to interpret: only every n-th case
+            let cheap = REP | CAP | ESC | SURR | VERB | NOSTART | COLOR;
+            let allowed = if heavy_every > 0 && i % heavy_every == heavy_every - 1 { cheap | DIGIT | NWORD | CI } else { cheap };
+            let mut s = gen::settings(&mut rng, allowed);
+            s.min_rep = s.min_rep.min(3);
+            s.min_len = s.min_len.min(3);
+            (tcs, s)
+        })
+        .collect()
+}
+
+/// C07: sequential builds under Miri, 16 shards.
+pub fn miri_leg(ctx: &Ctx, which: &str) -> Value {
+    let mut st = Stats::new();
+    let dir = format!("/verif/.build/tmp/miri-{which}-{}", std::process::id());
+    let _ = std::fs::create_dir_all(&dir);
+    let shards = 16usize;
+    let per_shard = 12usize;
+    let flags = "-Zmiri-disable-isolation";
+    // build once so that the shards do not compile concurrently
+    let empty = format!("{dir}/empty.cases");
+    write_cases(&empty, &[]);
+    let pre = cargo("miri", "--cfg grex_verif", flags).args(["+nightly", "miri", "run", "--offline", "--", "seq", &empty]).spawn();
+    let built = match pre {
+        Ok(c) => {
+            let f = wait(c, Duration::from_secs(1200));
+            f.code == Some(0)
+        }
+        Err(_) => false,
+    };
+    let mut summary = json!({"miri_shards": shards, "miri_cases_per_shard": per_shard});
+    if !built {
+        st.inconclusive("miri driver could not be built");
+        ctx.run.merge(st);
+        summary["miri_leg"] = json!("driver build failed (inconclusive)");
+        return summary;
+    }
+    let mut children = vec![];
+    let mut all_cases = vec![];
+    for k in 0..shards {
+        let cases = small_cases(ctx.seed(), per_shard, 0x7a_0000 + (k as u64) * 1000, 6);
+        let path = format!("{dir}/shard-{k}.cases");
+        write_cases(&path, &cases);
+        let child = cargo("miri", "--cfg grex_verif", flags).args(["+nightly", "miri", "run", "--offline", "--", "seq", &path]).spawn();
+        children.push(child);
+        all_cases.push(cases);
+    }
+    let mut compared = 0;
+    let mut reports = 0;
+    for (k, ch) in children.into_iter().enumerate() {
+        let Ok(ch) = ch else {
+            st.inconclusive("cannot start cargo miri");
+            continue;
+        };
+        let f = wait(ch, Duration::from_secs(2400));
+        if f.timed_out {
+            st.inconclusive(&format!("miri shard {k}: watchdog"));
+        } else if f.code != Some(0) {
+            let is_report = f.stderr.contains("Undefined Behavior") || f.stderr.contains("error: memory leaked") || f.stderr.contains("Data race") || f.stderr.contains("panicked");
+            if is_report {
+                reports += 1;
+                let msg: String = f.stderr.lines().filter(|l| l.contains("error") || l.contains("Undefined") || l.contains("panicked")).take(4).collect::<Vec<_>>().join(" | ");
+                st.violation("miri_report", format!("shard {k}: {msg}"), json!({"what": "miri", "shard": k, "stderr_tail": f.stderr.lines().rev().take(30).collect::<Vec<_>>()}));
+            } else {
+                st.inconclusive(&format!("miri shard {k}: exit {:?} without a report", f.code));
+            }
+        }
+        compared += compare_with_native(&mut st, "miri", &f.stdout, &all_cases[k]);
+    }
+    let _ = std::fs::remove_dir_all(&dir);
+    summary["miri_builds_interpreted"] = json!(compared);
+    summary["miri_reports"] = json!(reports);
+    summary["miri_flags"] = json!(flags);
+    ctx.run.merge(st);
+    summary
+}
+
+/// C10: ThreadSanitizer (16 threads, native speed) and Miri with many schedule seeds (3 threads).
+pub fn c10_legs(ctx: &Ctx) -> Value {
+    let mut st = Stats::new();
+    let dir = format!("/verif/.build/tmp/c10-san-{}", std::process::id());
+    let _ = std::fs::create_dir_all(&dir);
+    let mut summary = json!({});
+    // ---- ThreadSanitizer
+    let tsan_build = cargo("tsan", "-Zsanitizer=thread --cfg grex_verif", "")
+        .args(["+nightly", "build", "--offline", "--release", "-Zbuild-std", "--target", "x86_64-unknown-linux-gnu"])
+        .spawn()
+        .map(|c| wait(c, Duration::from_secs(1800)));
+    let bin = "/verif/.build/tsan/x86_64-unknown-linux-gnu/release/sdriver";
+    match tsan_build {
+        Ok(f) if f.code == Some(0) && std::path::Path::new(bin).exists() => {
+            let cases: Vec<(Vec<String>, Settings)> = crate::c10::batch(ctx.seed(), 300);
+            let path = format!("{dir}/tsan.cases");
+            write_cases(&path, &cases);
+            let rounds = 6;
+            let mut reports = 0;
+            let mut builds = 0;
+            for r in 0..rounds {
+                let child = Command::new(bin)
+                    .args(["threads", &path, "16"])
+                    .env("TSAN_OPTIONS", "halt_on_error=0 exitcode=66 second_deadlock_stack=1")
+                    .stdout(Stdio::piped())
+                    .stderr(Stdio::piped())
+                    .spawn();
+                let Ok(child) = child else {
+                    st.inconclusive("cannot start tsan driver");
+                    continue;
+                };
+                let f = wait(child, Duration::from_secs(900));
+                if f.timed_out {
+                    st.inconclusive("tsan round: watchdog");
+                    continue;
+                }
+                let n_reports = f.stderr.matches("WARNING: ThreadSanitizer").count();
+                if n_reports > 0 || f.code == Some(66) {
+                    reports += n_reports.max(1);
+                    let first: String = f.stderr.lines().skip_while(|l| !l.contains("WARNING: ThreadSanitizer")).take(25).collect::<Vec<_>>().join("\n");
+                    st.violation("tsan_report", format!("round {r}: {n_reports} ThreadSanitizer report(s)"), json!({"what": "tsan", "first_report": first}));
+                } else if f.code != Some(0) {
+                    st.inconclusive(&format!("tsan driver exit {:?}", f.code));
+                }
+                builds += compare_with_native(&mut st, "tsan", &f.stdout, &cases) * 16;
+            }
+            summary["tsan"] = json!({"threads": 16, "rounds": rounds, "concurrent_builds": builds, "reports": reports});
+        }
+        _ => {
+            st.inconclusive("tsan driver could not be built");
+            summary["tsan"] = json!("driver build failed (inconclusive)");
+        }
+    }
+    // ---- Miri, many seeds
+    let cases = small_cases(ctx.seed(), 5, 0x7b_0000, 2);
+    let path = format!("{dir}/miri-threads.cases");
+    write_cases(&path, &cases);
+    let seeds = 16;
+    let flags = format!("-Zmiri-disable-isolation -Zmiri-many-seeds=0..{seeds}");
+    let child = cargo("miri", "--cfg grex_verif", &flags).args(["+nightly", "miri", "run", "--offline", "--", "threads", &path, "3"]).spawn();
+    match child {
+        Err(_) => st.inconclusive("cannot start cargo miri"),
+        Ok(c) => {
+            let f = wait(c, Duration::from_secs(3000));
+            if f.timed_out {
+                st.inconclusive("miri many-seeds: watchdog");
+            } else if f.code != Some(0) {
+                if f.stderr.contains("Undefined Behavior") || f.stderr.contains("Data race") || f.stderr.contains("data race") || f.stderr.contains("panicked") {
+                    let msg: String = f.stderr.lines().filter(|l| l.contains("error") || l.contains("ace")).take(4).collect::<Vec<_>>().join(" | ");
+                    st.violation("miri_report", msg, json!({"what": "miri_threads", "stderr_tail": f.stderr.lines().rev().take(30).collect::<Vec<_>>()}));
+                } else {
+                    st.inconclusive(&format!("miri many-seeds exit {:?} without a report", f.code));
+                }
+            }
+            let n = compare_with_native(&mut st, "miri_threads", &f.stdout, &cases);
+            summary["miri_many_seeds"] = json!({"seeds": seeds, "threads": 3, "cases": cases.len(), "results_compared": n, "flags": flags});
+        }
+    }
+    let _ = std::fs::remove_dir_all(&dir);
+    ctx.run.merge(st);
+    summary
 }
